@@ -63,3 +63,8 @@ pub use fixtures::{
 // Expose decorators module for testing
 #[cfg(test)]
 pub use fixtures::decorators;
+
+// Verification hook (off unless built with --cfg pytest_language_server_verif):
+// expose the LSP request handlers to an in-process driver.
+#[cfg(pytest_language_server_verif)]
+pub mod providers;
